@@ -20,11 +20,6 @@ theorem bufCstr_name (name : Bytes) (tl : Buf) (h0 : ∀ c ∈ name, c ≠ 0) :
     simp only [List.cons_append, List.map_cons, List.length_cons, List.set_cons_succ, bufCstr, hc, if_false]
     rw [ih (fun x hx => h0 x (by simp [hx]))]
 
-structure GoodName (name : Bytes) : Prop where
-  nonempty : name ≠ []
-  short : name.length ≤ 509
-  clean : ∀ c ∈ name, c ≠ 10 ∧ c ≠ 0
-
 /-- `gsufBody` on a written name line when the suffix has no table -/
 theorem gsufBody_notable (fx : Bool) (buf : Buf) (name rest : Bytes) (tablines : Nat) (hn : GoodName name) :
     ∃ buf', gsufBody fx buf (name.length + 1) 0 tablines (name ++ 10 :: rest) = .ok (name, [], rest, buf') := by
@@ -72,8 +67,6 @@ theorem cstr_zeros (p : Bytes) (m : Nat) (h0 : ∀ c ∈ p, c ≠ 0) : cstr (p +
     simp only [List.cons_append, List.takeWhile_cons, hc, ne_eq, not_false_eq_true, decide_true, if_true]
     rw [ih (fun x hx => h0 x (by simp [hx]))]
 
-def joinNl (ls : List Bytes) : Bytes := ls.flatMap (· ++ [10])
-
 theorem tabLines_written (init : List Bytes) (hinit : ∀ l ∈ init, ∀ c ∈ l, c ≠ 10 ∧ c ≠ 0) (p : Bytes) (m : Nat) (tail : Bytes)
     (hm : (joinNl init).length + 1 ≤ m) :
     tabLines init.length (p ++ List.replicate m 0) p.length (p.length + m) (joinNl init ++ tail) =
@@ -103,12 +96,6 @@ theorem tabLines_written (init : List Bytes) (hinit : ∀ l ∈ init, ∀ c ∈ 
     simp only [joinNl] at this
     rw [this]
     simp [List.append_assoc, Nat.sub_sub, Nat.add_assoc, Nat.add_comm, Nat.add_left_comm]
-
-structure GoodTable (init : List Bytes) (last : Bytes) : Prop where
-  init_clean : ∀ l ∈ init, ∀ c ∈ l, c ≠ 10 ∧ c ≠ 0
-  last_clean : ∀ c ∈ last, c ≠ 10 ∧ c ≠ 0
-  last_short : last.length ≤ 509
-  last_nocr : last.getLast? ≠ some 13
 
 theorem joinNl_clean (init : List Bytes) (h : ∀ l ∈ init, ∀ c ∈ l, c ≠ 10 ∧ c ≠ 0) : ∀ c ∈ joinNl init, c ≠ 0 := by
   intro c hc
